@@ -74,7 +74,7 @@ def op_strategy(weights=None):
         "ph_insert": st.tuples(st.just("ph_insert"), I, I, I),
         "set_text": st.tuples(st.just("set_text"), I, I, st.integers(0, 4), T),
         "para_op": st.tuples(st.just("para_op"), I, I, st.integers(0, 5), T),
-        "fmt": st.tuples(st.just("fmt"), I, I, st.integers(0, 32), st.integers(0, 7)),
+        "fmt": st.tuples(st.just("fmt"), I, I, st.integers(0, 33), st.integers(0, 7)),
         "table_op": st.tuples(st.just("table_op"), I, I, st.integers(0, 9), st.integers(0, 5), st.integers(0, 5),
                               st.integers(0, 5), st.integers(0, 5)),
         "chart_fmt": st.tuples(st.just("chart_fmt"), I, I, st.integers(0, 27), st.integers(0, 6)),
@@ -662,6 +662,20 @@ class Interp:
                     sh.shadow.inherit = bool(v % 2)
             info.update(slide=sl, target=sh)
             return self._call("fmt_misc%d" % kind, f, rej + (NotImplementedError,))
+        if kind == 33:
+            # text-frame insets at and beyond the ends of their 32-bit range (a:bodyPr/@lIns is an ST_Coordinate32)
+            sh = self._text_target(sl, shape_i)
+            if sh is None:
+                return "skipped"
+            def f():
+                tf = sh.text_frame
+                val = [2 ** 31, -2 ** 31 - 1, 2 ** 40, 2 ** 31 - 1, -2 ** 31, 2 ** 31 + 5, -2 ** 33, 2 ** 32][v]
+                if v % 2:
+                    tf.margin_top = val
+                else:
+                    tf.margin_left = val
+            info.update(slide=sl, target=sh)
+            return self._call("fmt_text33", f, rej)
         if kind == 32:
             # two proxies of one colour object taken before a colour exists, a colour assigned through each
             sh = self.pick(sl, shape_i, lambda s: type(s).__name__ in ("Shape", "SlidePlaceholder") and _has(s, "fill"))
